@@ -2087,13 +2087,24 @@ static bool parse_ignored(TokenContext &ctx, Chunk &pc)
       // end of file?
       return(false);
    }
+   // the text that ends a '#pragma asm' region does not end a region that a marker comment has opened
+   Chunk *opener = Chunk::GetTail();
 
+   while (  opener->IsNotNullChunk()
+         && (  opener->Is(CT_IGNORED)
+            || opener->IsNewline()))
+   {
+      opener = opener->GetPrev();
+   }
    // HACK: turn on if we find '#endasm' or '#pragma' and 'endasm' separated by blanks
-   if (  (  (  (pc.GetStr().find("#pragma ") >= 0)
-            || (pc.GetStr().find("#pragma	") >= 0))
-         && (  (pc.GetStr().find(" endasm") >= 0)
-            || (pc.GetStr().find("	endasm") >= 0)))
-      || (pc.GetStr().find("#endasm") >= 0))
+   bool asm_end = (  (  (  (pc.GetStr().find("#pragma ") >= 0)
+                        || (pc.GetStr().find("#pragma	") >= 0))
+                     && (  (pc.GetStr().find(" endasm") >= 0)
+                        || (pc.GetStr().find("	endasm") >= 0)))
+                  || (pc.GetStr().find("#endasm") >= 0));
+
+   if (  asm_end
+      && !opener->IsComment())
    {
       cpd.unc_off = false;
       ctx.restore();
